@@ -555,4 +555,23 @@ Context * Context::createChildRuntime(Context& root, uint8_t recursion) const
   return runtime;
 }
 
+/**
+ * Reset a runtime context made from the given parent, before reuse.
+ * Symbols and values are restored as in a new runtime context.
+ * @param parent      the context this runtime was made from
+ */
+void Context::resetRuntime(const Context& parent)
+{
+  _breakCondition = false;
+  _continueCondition = false;
+  _returnCondition = false;
+  size_t n = std::min(_storage_pool.size(), parent._storage_pool.size());
+  for (size_t i = 0; i < n; ++i)
+  {
+    MemorySlot& e = _storage_pool[i];
+    *e.symbol = *parent._storage_pool[i].symbol;
+    e.value = Value(*e.symbol);
+  }
+}
+
 }
